@@ -193,7 +193,7 @@ func (r *SimReader) scribble(p []byte) {
 // All-zero draws give "whole, as asked", i.e. the in-memory-like delivery.
 func DrawReaderPlan(t *tape.Tape, n int) ReaderPlan {
 	p := ReaderPlan{Cut: -1, ZeroBefore: map[int]int{}}
-	mode := t.Intn("rd-mode", 6)
+	mode := t.Intn("rd-mode", 7)
 	p.EOFWithData = t.Bool("rd-eofdata")
 	p.Scribble = t.Bool("rd-scribble")
 	switch mode {
@@ -215,6 +215,12 @@ func DrawReaderPlan(t *tape.Tape, n int) ReaderPlan {
 	case 4: // one split point
 		if n > 0 {
 			p.Boundaries = []int{t.Intn("rd-split", n)}
+		}
+	case 6: // a few bytes per call, and an isolated (0,nil) read before every fragment:
+		// hundreds of empty reads in one document, never two in a row
+		p.MaxPerCall = 1 + t.Intn("rd-max", 3)
+		for off := 0; off <= n; off++ {
+			p.ZeroBefore[off] = 1 // (wherever a read starts)
 		}
 	case 5: // everything mixed
 		p.MaxPerCall = t.Intn("rd-max", 5)
